@@ -957,6 +957,10 @@ func (cs *dcase) serve(f []string) string {
 	if cs.curReq.URL.RawQuery == "" {
 		cs.curReq.URL.RawQuery = "page=1&token=abc"
 	}
+	if cs.seq%4 == 0 { // every fourth request looks like a WebSocket handshake (nothing in these engines upgrades)
+		cs.curReq.Header.Set("Connection", "Upgrade")
+		cs.curReq.Header.Set("Upgrade", "websocket")
+	}
 	if cs.recycleRec && cs.curRec != nil && cs.curRec.seq != 0 && cs.seq%2 == 0 && !cs.isTwin {
 		*cs.curRec = dispRecWriter{cs: cs, seq: cs.seq, hdr: http.Header{}}
 		dispStat("recycled_writer_objects", 1)
